@@ -46,8 +46,10 @@ class Mut:
 class Site:
     """One value of the document together with what the meta-model says about it."""
 
-    def __init__(self, path: Tuple[Any, ...], value: Any, ta: Any, cons: Any, shape: str, optional: bool, cls: Any) -> None:
+    def __init__(self, path: Tuple[Any, ...], value: Any, ta: Any, cons: Any, shape: str, optional: bool, cls: Any,
+                 prop_name: str = "", depth: int = 0) -> None:
         self.path, self.value, self.ta, self.cons, self.shape, self.optional, self.cls = path, value, ta, cons, shape, optional, cls
+        self.prop_name, self.depth = prop_name, depth
 
 
 def _runtime_class(b: c11.Bundle, declared: Any, doc: Any) -> Any:
@@ -87,7 +89,7 @@ def _value_sites(b: c11.Bundle, cls: Any, prop: Any, v: Any, ta: Any, cbv: Any, 
         shape = ("inherited" if inherited else "own") + ("-items" if depth > 0 else "")
     if isinstance(ta, intermediate.OurTypeAnnotation) and isinstance(ta.our_type, intermediate.ConstrainedPrimitive):
         shape += "-constrained"
-    yield Site(path, v, ta, cons, shape, optional and depth == 0, cls)
+    yield Site(path, v, ta, cons, shape, optional and depth == 0, cls, str(prop.name), depth)
     if isinstance(ta, intermediate.ListTypeAnnotation) and isinstance(v, list):
         for i, x in enumerate(v):
             yield from _value_sites(b, cls, prop, x, ta.items, cbv, path + (i,), depth + 1, False)
@@ -211,14 +213,24 @@ def _string_candidates(v: str, cons: Any, rng: random.Random) -> List[str]:
                 c = rng.choice(FILL)
                 cands += [s[:k] + c + s[k + 1:], s[:k] + c + s[k:]]
         cands += [s + "~", "~" + s, s + "\U0001F600", " " + s]
+    # the neighbours of every escaped code point of the patterns (end points of astral ranges): just outside / inside
+    for p in (cons.patterns or []):
+        for mt in re.finditer(r"\\U([0-9A-Fa-f]{8})|\\u([0-9A-Fa-f]{4})", p.pattern):
+            cp = int(mt.group(1) or mt.group(2), 16)
+            for c in (cp - 1, cp + 1, cp):
+                if 0 < c <= 0x10FFFF and not 0xD800 <= c <= 0xDFFF:
+                    for s in seeds[:3]:
+                        if s:
+                            cands += [chr(c) + s[1:], s[:-1] + chr(c)]
+                        cands.append(chr(c))
     return cands
 
 
-def constraint_mutants(site: Site, rng: random.Random) -> Iterator[Tuple[Any, str, str]]:
-    """(new value, kind, label) — each breaking one inferred constraint of the site."""
+def constraint_mutants(site: Site, rng: random.Random, cons: Any = None) -> Iterator[Tuple[Any, str, str]]:
+    """(new value, kind, label) — each breaking one constraint of the site (the inferred ones, or ``cons``)."""
     from aas_core_codegen import intermediate
 
-    cons, v = site.cons, site.value
+    cons, v = (site.cons if cons is None else cons), site.value
     if cons is None:
         return
     kindp = _prim_kind(site.ta)
@@ -286,16 +298,101 @@ def mistyped_values(site: Site) -> List[Tuple[Any, str]]:
     return [("text", "string"), ([], "array"), (12, "integer"), (None, "null")]
 
 
-def mutants(b: c11.Bundle, cls: Any, doc: Any, rng: random.Random, cap: int = 14) -> List[Mut]:
+class _Len:
+    def __init__(self, lo: Optional[int], hi: Optional[int]) -> None:
+        self.min_value, self.max_value = lo, hi
+
+
+class _Pat:
+    def __init__(self, pattern: str) -> None:
+        self.pattern = pattern
+
+
+class ExpectedCons:
+    """The oracle's OWN reading of the meta-model text (``mm.hints_for_class`` / ``hints_for_type``: the tightest of all
+    length bounds and every pattern that the invariants of the class, of all its ancestors and of the value's
+    constrained primitive and all ITS ancestors state in a schema-representable form), shaped like the real thing."""
+
+    def __init__(self, lo: int, hi: int, patterns: List[str]) -> None:
+        lo_ = lo if lo > 0 else None
+        hi_ = hi if hi < 10**6 else None
+        self.len_constraint = _Len(lo_, hi_) if (lo_ is not None or hi_ is not None) else None
+        self.patterns = [_Pat(p) for p in dict.fromkeys(patterns)] or None
+
+    def key(self) -> Tuple[Any, Any, Any]:
+        lc = self.len_constraint
+        return (lc.min_value if lc else None, lc.max_value if lc else None, frozenset(p.pattern for p in self.patterns or []))
+
+
+def _real_key(cons: Any) -> Tuple[Any, Any, Any]:
+    if cons is None:
+        return (None, None, frozenset())
+    lc = cons.len_constraint
+    lo = lc.min_value if lc is not None else None
+    return (lo if lo else None, lc.max_value if lc is not None else None, frozenset(p.pattern for p in (cons.patterns or [])))
+
+
+_HINTS: Dict[Tuple[int, str], Any] = {}
+
+
+def expected_constraints(m: Any, site: Site) -> Optional[ExpectedCons]:
+    """None: the oracle has no own opinion about this site (not a string / list, crossing bounds, unknown class)."""
+    from aas_core_codegen import intermediate
+    from harness import mm
+
+    if m is None or not hasattr(m, "classes"):
+        return None
+    kindp = _prim_kind(site.ta)
+    is_list = isinstance(site.ta, intermediate.ListTypeAnnotation)
+    if kindp != "STR" and not is_list:
+        return None
+    cname = str(site.cls.name)
+    key = (id(m), cname)
+    if key not in _HINTS:
+        try:
+            _HINTS[key] = (m, mm.hints_for_class(m, cname), {p.name: p.type for p, _ in mm.all_props(m, cname)})
+        except KeyError:
+            _HINTS[key] = (m, None, None)
+    _, hints, types = _HINTS[key]
+    if hints is None or site.prop_name not in hints:
+        return None
+    if site.depth == 0:
+        h = hints[site.prop_name]
+    else:
+        t = mm.beneath_optional(types[site.prop_name])
+        for _ in range(site.depth):
+            if not isinstance(t, mm.ListOf):
+                return None
+            t = mm.beneath_optional(t.item)
+        h = mm.hints_for_type(m, t)
+    if h.lo > h.hi:
+        return None
+    return ExpectedCons(h.lo, h.hi, h.patterns)
+
+
+def mutants(b: c11.Bundle, cls: Any, doc: Any, rng: random.Random, cap: int = 14, m: Any = None, ctx: Any = None) -> List[Mut]:
     """Single-value mutants of ``doc`` (a document of exactly class ``cls``), at most ``cap`` of each family."""
     from aas_core_codegen import intermediate, naming
 
     cons_muts: List[Mut] = []
     struct: List[Mut] = []
+    expected_muts: List[Mut] = []
     all_sites = list(sites(b, cls, doc))
     for site in all_sites:
         for value, kind, label in constraint_mutants(site, rng):
             cons_muts.append(Mut(_set(doc, site.path, value), kind, label, site.shape))
+        # the constraints as the oracle reads them from the meta-model text; only where they differ from the inferred ones
+        exp = expected_constraints(m, site)
+        if exp is not None:
+            if exp.key() == _real_key(site.cons):
+                if ctx is not None:
+                    ctx.hit("expected-constraints:as-inferred")
+            else:
+                if ctx is not None:
+                    ctx.hit("expected-constraints:DIFFER")
+                for value, kind, label in constraint_mutants(site, rng, cons=exp):
+                    expected_muts.append(Mut(_set(doc, site.path, value), kind, label + " [constraint read from the meta-model text, not inferred]",
+                                             "expected-" + site.shape))
     # structure: every object of the document
     objs: List[Tuple[Tuple[Any, ...], Any, Any]] = [((), cls, doc)]
     for site in all_sites:
@@ -328,11 +425,11 @@ def mutants(b: c11.Bundle, cls: Any, doc: Any, rng: random.Random, cap: int = 14
     rng.shuffle(struct)
     rng.shuffle(cons_muts)
     # one representative per (kind, shape) first, then fill up
-    out: List[Mut] = []
+    out: List[Mut] = list(expected_muts)
     for fam in (cons_muts, struct):
         seen: Dict[Tuple[str, str], int] = {}
-        first = [m for m in fam if seen.setdefault((m.kind, m.shape), id(m)) == id(m)]
-        rest = [m for m in fam if seen[(m.kind, m.shape)] != id(m)]
+        first = [x for x in fam if seen.setdefault((x.kind, x.shape), id(x)) == id(x)]
+        rest = [x for x in fam if seen[(x.kind, x.shape)] != id(x)]
         out += (first + rest)[:cap]
     return out
 
